@@ -529,6 +529,6 @@ func init() {
 			"jq-defined path consumers interpreted from builtin.jq; setpath non-interference for all incomparable path pairs; 15 computed sources x 9 path contexts for the invalid-path law; every case also checks that the input (incl. spare capacity) is unchanged and the result acyclic.",
 		Assume: []string{"refjq's RefGetpath/RefSetpath/RefDelpaths (value semantics, deletions resolved against the original) are the oracle", "heap address reuse by the allocator after GC is outside the explored space"},
 		Run:    c02Run, Replay: c02Replay,
-		QuickBudget: 150 * time.Second, ThoroughBudget: 15 * time.Minute,
+		QuickBudget: 150 * time.Second, ThoroughBudget: 8 * time.Minute,
 	})
 }
